@@ -66,6 +66,8 @@ def run(ctx):
     cases.append({"kind": "badident", "seed": 1, "nlookupd": 1, "fails": []})
     for i in range(2 if ctx.quick else 6):
         cases.append({"kind": "page", "seed": i, "nlookupd": 1 + i % 2, "fails": []})
+    for i in range(4 if ctx.quick else 12):
+        cases.append({"kind": "onefaulty", "seed": i, "nlookupd": 2, "fails": []})
     cases.append({"kind": "badident", "seed": 2, "nlookupd": 2, "fails": []})
     cases.append({"kind": "churnping", "seed": 1, "nlookupd": 1, "fails": []})
     cases.append({"kind": "halfopen", "seed": 1, "nlookupd": 1, "fails": []})
